@@ -281,10 +281,34 @@ def _fit_rules(ctx, A, cls, m, fi, r, params, cfg, is_subject):
                             f"{cname}.fit calls {f.args[1]} on the constructor-parameter object self.{recv.args[1]} "
                             "itself (no clone/deepcopy): the caller's estimator is mutated and refits are coupled",
                             f"un-copied {recv.args[1]}.{f.args[1]}")
+            shallow = [x for x in _alternatives(recv) if x.op == "call" and x.args[0].op == "global" and x.args[0].args[0] == "copy.copy"]
+            if shallow:
+                _note_or_ob(ctx, is_subject, "R19.6", e.func, e.node, False,
+                            f"{cname}.fit calls {f.args[1]} on a shallow copy ({show(shallow[0], maxdepth=3)[:60]}): nested objects "
+                            "(sub-estimators, state containers) stay shared with the configured estimator and with every other copy, "
+                            "so one fit rewrites what an earlier fitted model predicts with",
+                            f"shallow-copied {f.args[1]} receiver")
     fits = [e for e in r.events if e.kind == "call" and not e.data.get("resolved") and e.data["fterm"].op == "attr"
             and e.data["fterm"].args[1] == "fit"]
     ctx.ob("R19.6", fi.fq, None, True, f"{cname}.fit: {len(fits)} wrapped-estimator fit calls inspected",
            construct=f"{cname}.fit wrapped fits", nontrivial=bool(fits))
+
+
+def _alternatives(t):
+    """the values a term can take, through conditionals, refinements and loop-carried variables"""
+    out, stack, n = [], [t], 0
+    while stack and n < 64:
+        x = stack.pop()
+        n += 1
+        if x.op == "ite":
+            stack.extend([x.args[1], x.args[2]])
+        elif x.op == "assume":
+            stack.append(x.args[1])
+        elif x.op == "loopvar" and len(x.args) >= 3 and isinstance(x.args[2], T):
+            stack.append(x.args[2])
+        else:
+            out.append(x)
+    return out
 
 
 def _predict_rules(ctx, A, cls, m, fi, r, is_subject):
